@@ -498,7 +498,7 @@ pub fn string_substr(
         .unwrap_or((len - start) as usize);
 
     let start_idx = start as usize;
-    let end_idx = (start_idx + length).min(chars.len());
+    let end_idx = start_idx.saturating_add(length).min(chars.len());
 
     let result: String = chars
         .get(start_idx..end_idx)
